@@ -171,6 +171,23 @@ func sum(hs int64, b []byte) []byte {
 	return s[:]
 }
 
+// an observable whose text is long is replaced by its length and a digest (mirrors Model/IndexFile.c12_short:
+// coqc cannot read back a rendered value of more than a few 10^4 characters); the full text goes to extra["full"]
+const shortLimit = 20000
+
+func short(o lib.Out, extra map[string]any) (lib.Out, any) {
+	s := lib.Render(o)
+	if len(s) <= shortLimit {
+		return o, extra
+	}
+	var h uint64
+	for i := 0; i < len(s); i++ {
+		h = (h*1000003 + uint64(s[i]) + 1) % 4294967291
+	}
+	extra["full"] = s
+	return lib.List(lib.Sym("long"), lib.Int(int64(len(s))), lib.Uint(h)), extra
+}
+
 func main() {
 	lib.Main(func(c lib.Case) (lib.Out, any) {
 		hs := c.I("hs")
@@ -190,7 +207,10 @@ func main() {
 				all = append(all, k)
 			}
 			sort.Strings(all)
-			return first, map[string]any{"distinct": len(distinct), "all": all}
+			if len(all) == 1 {
+				all = nil
+			}
+			return short(first, map[string]any{"distinct": len(distinct), "all": all})
 		case "enc":
 			idx := mkIndex(c, hs)
 			var buf bytes.Buffer
